@@ -189,19 +189,20 @@ type ProvOpts struct {
 func GenProviders(t *rapid.T, o ProvOpts) []ProvSpec {
 	n := rapid.IntRange(o.Min, o.Max).Draw(t, "nprov")
 	var out []ProvSpec
-	unnamed := map[int]bool{}
+	unnamed := map[string]bool{} // by default registration name
 	used := map[string]bool{}
 	for i := 0; i < n; i++ {
 		p := ProvSpec{Kind: rapid.SampledFrom(o.Kinds).Draw(t, "kind")}
 		// at most one unnamed instance per type (default names are per type)
 		wantName := rapid.IntRange(0, 2).Draw(t, "named") > 0
+		defName := RegisteredName(ProvSpec{Kind: p.Kind})
 		if zoo.ProviderKinds[p.Kind].NoName {
-			if unnamed[p.Kind] {
+			if unnamed[defName] {
 				continue
 			}
 			wantName = false
 		}
-		if unnamed[p.Kind] {
+		if unnamed[defName] {
 			wantName = true
 		}
 		if wantName {
@@ -217,7 +218,7 @@ func GenProviders(t *rapid.T, o ProvOpts) []ProvSpec {
 			p.Alias = rapid.SampledFrom(free).Draw(t, "alias")
 			used[p.Alias] = true
 		} else {
-			unnamed[p.Kind] = true
+			unnamed[defName] = true
 		}
 		if len(o.Quals) > 0 {
 			p.Qual = rapid.SampledFrom(o.Quals).Draw(t, "qual")
@@ -274,6 +275,9 @@ func DrawFieldType(t *rapid.T, provs []ProvSpec, slice bool) string {
 func RegisteredName(p ProvSpec) string {
 	if p.Alias != "" {
 		return p.Alias
+	}
+	if d := zoo.ProviderKinds[p.Kind].DefName; d != "" {
+		return d
 	}
 	return "verif/harness/zoo/" + zoo.ProviderKinds[p.Kind].Name
 }
